@@ -39,7 +39,7 @@ Inductive texpr :=
 | TConst (c : cval)                 (* nodes.Const *)
 | TSeq (items : list titem)         (* nodes.Tuple / nodes.List literal *)
 | TDyn (x : name)                   (* a variable *)
-| TCond (t : name) (a b : tname).   (* "a" if t else "b" (nodes.CondExpr) *)
+| TCond (t : name) (a b : titem).   (* e1 if t else e2 (nodes.CondExpr); a branch is a constant or a variable *)
 Inductive rkind := KExtends | KInclude | KImport | KFromImport.
 
 (* what one node yields *)
@@ -78,7 +78,9 @@ Section Runtime.
                                         | IDyn x => dv x
                                         end) items
     | TDyn x => dv x
-    | TCond t a b => if truth t then [a] else [b]
+    | TCond t a b =>
+        let one it := match it with IConst (CStr s) => [s] | IConst _ => [] | IDyn x => dv x end in
+        if truth t then one a else one b
     end.
   (* select_template: ask for the candidates in order until one is found *)
   Fixpoint until_found (l : list tname) : list tname :=
